@@ -330,6 +330,54 @@ pub fn run_bulk_ladder(geom: Geom, n: u64, mode: u8) -> Result<Trace, String> {
     .and_then(|x| x)
 }
 
+/// The ladder through MANY small bulk calls (chunks of `chunk` items, no single
+/// insert in between): raw extend_iter, MapBuilder::extend_iter and
+/// SetBuilder::extend_iter in turn, one builder each.
+pub fn run_chunked_bulk_ladder(geom: Geom, n: u64, chunk: usize) -> Result<i64, String> {
+    guard(|| {
+        let mut worst = 0i64;
+        for which in 0..3 {
+            let x0 = alloc::live();
+            let e = |x: fst::Error| format!("{:?}", x);
+            let mut rb = if which == 0 { Some(if geom == (10_000, 2) { raw::Builder::new_type(std::io::sink(), 0) } else { raw::Builder::verif_new_with_registry(std::io::sink(), 0, geom.0, geom.1) }.map_err(e)?) } else { None };
+            let mut mb = if which == 1 { Some(fst::MapBuilder::new(std::io::sink()).map_err(e)?) } else { None };
+            let mut sb = if which == 2 { Some(fst::SetBuilder::new(std::io::sink()).map_err(e)?) } else { None };
+            let g = if which == 0 { geom } else { (10_000, 2) };
+            let after_new = alloc::live() - x0;
+            let bmax = bound(after_new, g, 4, 16) + 256;
+            let mut it = LadderIter { state: 0, i: 0, n };
+            alloc::reset_peak();
+            let mut calls = 0u64;
+            while it.i < it.n {
+                let part = it.by_ref().take(chunk);
+                match which {
+                    0 => rb.as_mut().unwrap().extend_iter(part.map(|(k, v)| (k, raw::Output::new(v)))),
+                    1 => mb.as_mut().unwrap().extend_iter(part),
+                    _ => sb.as_mut().unwrap().extend_iter(part.map(|(k, _)| k)),
+                }
+                .map_err(e)?;
+                calls += 1;
+                let held = alloc::live() - x0;
+                if held > bmax {
+                    return Err(format!("{} bulk calls of {} items each ({}): {} bytes held after call {} (cache {}x{}); bound without any term in the number of items is {} (heap after new: {})", calls, chunk, ["raw extend_iter", "MapBuilder::extend_iter", "SetBuilder::extend_iter"][which], held, calls, g.0, g.1, bmax, after_new));
+                }
+            }
+            worst = worst.max(alloc::peak() - x0);
+            match which {
+                0 => rb.take().unwrap().finish(),
+                1 => mb.take().unwrap().finish(),
+                _ => sb.take().unwrap().finish(),
+            }
+            .map_err(e)?;
+            if alloc::live() != x0 {
+                return Err(format!("{} bytes still live after finish (many small bulk calls)", alloc::live() - x0));
+            }
+        }
+        Ok(worst)
+    })
+    .and_then(|x| x)
+}
+
 pub fn run_ladder(geom: Geom, is_set: bool, n: u64) -> Result<Trace, String> {
     run_ladder_sink(geom, is_set, n, Pol::All)
 }
@@ -448,6 +496,9 @@ pub fn replay(case: &Value) -> Result<String, String> {
     }
     let geom = geom_from(&case["geom"]);
     let is_set = case["set"].as_bool().unwrap();
+    if let Some(chunk) = case["chunked_bulk"].as_u64() {
+        return run_chunked_bulk_ladder(geom, case["ladder_n"].as_u64().unwrap(), chunk as usize).map(|pk| format!("peak {} bytes", pk));
+    }
     if let Some(mode) = case["bulk_mode"].as_u64() {
         let n = case["ladder_n"].as_u64().unwrap();
         return run_bulk_ladder(geom, n, mode as u8).map(|t| format!("peak live {} bytes for N={}", t.max_live, n));
@@ -468,7 +519,7 @@ pub fn replay(case: &Value) -> Result<String, String> {
 pub fn plan(tier: Tier) -> Plan {
     let mut p = Plan::new("C13", "exploration");
     let thorough = tier.thorough();
-    p.rule = "counting allocator with per-thread counters; the builder streams to a discarding sink (the ladder also to discarding sinks that accept at most 1 / 5 bytes per call, interrupt every other call, or never accept across a 4096-byte boundary). (1) exhaustive: under the tiny cache geometries 1x1, 1x2, 2x2, 3x3 (cache saturated after a handful of inserts, i.e. the regime 'evicting on every miss' is reachable) every subset of U_ab3 as set and map, and every prefix of the sorted universes {a,b}^<=6 and {a,b,c,d}^<=4: after (and at the peak during) EVERY insert and finish the builder's live heap <= B(rows,cols,F,L) = heap_after_new + 2*(cells*(max(4,2F)*24+32) + (L+2)*(max(4,2F)*24+32) + [2(L+2)*80 if L+2>64] + 2L) + 4096, which has no term in the number of keys; after finish everything is freed. (2) finite ladder (not exhaustive): 16-byte keys over {a..d} with irregular gaps and non-shareable values, sets and maps, N in {1e4,1e5,2e5,4e5} (thorough: 1e6,4e6,1e7), geometries 1x1, 2x2, 100x2 and the default 10000x2, two ladders with varying key lengths (alternating 16/28-byte keys; keys that are proper prefixes of their successors), and a wide-node ladder (250..5000 (thorough 100000) distinct nodes of fan-out 40, 100, 256 and of widths cycling through 33..64, the node form with an index table), and the fixed ladder through ONE bulk call (raw/Map/Set extend_iter with an exact size hint and extend_stream, N up to 400000, thorough 2 million; a second, empty bulk call afterwards): peak live <= B for every N and, for geometries with <= 200 cells, |peak(N_{i+1}) - peak(N_i)| <= 1 KiB. (3) history independence: heap after new and peak of a fixed ladder, measured on a fresh thread before and after this thread and another one built an input with a 300 000-byte key and nodes of 256 transitions, differ by <= 16 KiB. non-trivial = histories with >= 8 keys".into();
+    p.rule = "counting allocator with per-thread counters; the builder streams to a discarding sink (the ladder also to discarding sinks that accept at most 1 / 5 bytes per call, interrupt every other call, or never accept across a 4096-byte boundary). (1) exhaustive: under the tiny cache geometries 1x1, 1x2, 2x2, 3x3 (cache saturated after a handful of inserts, i.e. the regime 'evicting on every miss' is reachable) every subset of U_ab3 as set and map, and every prefix of the sorted universes {a,b}^<=6 and {a,b,c,d}^<=4: after (and at the peak during) EVERY insert and finish the builder's live heap <= B(rows,cols,F,L) = heap_after_new + 2*(cells*(max(4,2F)*24+32) + (L+2)*(max(4,2F)*24+32) + [2(L+2)*80 if L+2>64] + 2L) + 4096, which has no term in the number of keys; after finish everything is freed. (2) finite ladder (not exhaustive): 16-byte keys over {a..d} with irregular gaps and non-shareable values, sets and maps, N in {1e4,1e5,2e5,4e5} (thorough: 1e6,4e6,1e7), geometries 1x1, 2x2, 100x2 and the default 10000x2, two ladders with varying key lengths (alternating 16/28-byte keys; keys that are proper prefixes of their successors), and a wide-node ladder (250..5000 (thorough 100000) distinct nodes of fan-out 40, 100, 256 and of widths cycling through 33..64, the node form with an index table), and the fixed ladder through ONE bulk call (raw/Map/Set extend_iter with an exact size hint and extend_stream, N up to 400000, thorough 2 million; a second, empty bulk call afterwards), and through MANY bulk calls of 1 / 7 / 63 items each with no single insert in between: peak live <= B for every N and, for geometries with <= 200 cells, |peak(N_{i+1}) - peak(N_i)| <= 1 KiB. (3) history independence: heap after new and peak of a fixed ladder, measured on a fresh thread before and after this thread and another one built an input with a 300 000-byte key and nodes of 256 transitions, differ by <= 16 KiB. non-trivial = histories with >= 8 keys".into();
     p.assumptions = vec![
         "'for all N' beyond the ladder is not decided by a bounded exploration; the ladder is a finite family and is reported as such".into(),
         "heap attributable to the builder = sum over its API calls of the change of the thread's live bytes (harness allocations are outside the measured calls)".into(),
@@ -591,6 +642,23 @@ pub fn plan(tier: Tier) -> Plan {
                 }
             }
         }));
+    }
+    // the ladder through many small bulk calls
+    for g in [(2usize, 2usize), (10_000, 2)] {
+        for chunk in [1usize, 7, 63] {
+            for n in [20_000u64, 200_000] {
+                p.units.push(unit("many-small-bulk-calls-ladder-(finite-family)", format!("chunked bulk {:?} chunk {} N={}", g, chunk, n), move |st, rep| {
+                    st.evals += 1;
+                    st.states += 3 * n / chunk as u64;
+                    st.transitions += 3 * n;
+                    st.nontrivial += 1;
+                    match run_chunked_bulk_ladder(g, n, chunk) {
+                        Ok(_) => st.count("chunked_bulk_ladder_points", 1),
+                        Err(msg) => rep.violation(format!("chunked bulk {:?} chunk {} N={}", g, chunk, n), msg, json!({"chunked_bulk": chunk, "ladder_n": n, "geom": [g.0, g.1], "set": false})),
+                    }
+                }));
+            }
+        }
     }
     // ladder
     let ns: Vec<u64> = if thorough { vec![10_000, 100_000, 200_000, 400_000, 1_000_000, 4_000_000, 10_000_000] } else { vec![10_000, 100_000, 200_000, 400_000] };
